@@ -56,7 +56,7 @@ def alphabet(fam, tier):
         ctxs = ["default", "nolazy", "attach", "skip", "cg", "nochol_root", "vjit"]
     ops = [["predict", c, "m3"] for c in ctxs]
     ops += [["predict", "default", "m1"], ["predict", "default", "b2"], ["predict", "fpv", "m1"]]
-    ops += [["train"], ["eval"], ["step"], ["load", 1], ["load", 0]]
+    ops += [["train"], ["eval"], ["step"], ["load", 1], ["load", 0], ["load_partial", 2]]
     if not models.is_var(fam):
         ops += [["set_data", 1], ["set_data", 0], ["set_inputs", 2], ["set_targets", 2], ["fantasy"], ["prior"]]
     else:
@@ -198,6 +198,10 @@ class World:
             self.custom_y = y
         elif k == "load":
             m.load_state_dict(models.perturbed_state(self.fam, self.seed, op[1], models.data(self.seed, 0, self.fam)))
+        elif k == "load_partial":
+            # only the kernel / mean hyperparameters of another state (strict=False): caches that depend on them live in OTHER modules
+            sd = models.perturbed_state(self.fam, self.seed, op[1], models.data(self.seed, 0, self.fam))
+            m.load_state_dict({kk: v for kk, v in sd.items() if kk.startswith(("covar_module", "mean_module"))}, strict=False)
         elif k == "step":
             opt = torch.optim.SGD(m.parameters(), lr=0.05)
             opt.zero_grad()
@@ -272,9 +276,9 @@ def run_history(cell, seed):
     # under two different variational_cholesky_jitter values?  (feature used by a known finding; a probe after a failed op is a default one)
     epoch, mixed, training = set(), False, False
     for o in hist + [["predict", "default"]]:
-        if o[0] == "train" or o[0] == "load" or (o[0] == "eval" and training):
+        if o[0] == "train" or o[0] in ("load", "load_partial") or (o[0] == "eval" and training):
             epoch = set()   # (eval() on a model that already is in evaluation mode drops nothing)
-            training = (o[0] == "train") or (training and o[0] == "load")
+            training = (o[0] == "train") or (training and o[0] in ("load", "load_partial"))
         elif o[0] in ("predict", "backward", "fantasy", "kl"):
             epoch.add("vjit" if (o[0] == "predict" and o[1] == "vjit") else "std")
             mixed = mixed or len(epoch) == 2
